@@ -74,7 +74,7 @@ theorem startApi_blockedFor (c : Cfg) (s : St) (a : Api) : BlockedFor a (startAp
       | exact hR _ _ hp
       | (rename_i s1 h1
          exact startDo_pend _ _ _ _ _ _ _ _ (connOpen_pend h1 hp) (fun s' e h => hR _ _ h) (fun hf => by cases hf))
-  | describe => exact describeStart_pend _ _ _ _ hp hR
+  | describe => exact describeStart_pend _ _ _ _ _ hp hR
   | announce =>
     simp only []
     repeat' split
